@@ -1,0 +1,35 @@
+//go:build verif
+
+// Verification hooks: thin exported wrappers around unexported functions.
+// Compiled only with `-tags verif`; they add no behaviour.
+
+package operators
+
+// VerifPass applies a single clean-up pass of `complete` to `input`.
+func (o *Operator) VerifPass(name string, input string) string {
+	switch name {
+	case "useHexEscapes":
+		return o.useHexEscapes(input)
+	case "escapeDoublequotes":
+		return o.escapeDoublequotes(input)
+	case "useHexBackslashes":
+		return o.useHexBackslashes(input)
+	case "includeVerticalTabInSpaceClass":
+		return o.includeVerticalTabInSpaceClass(input)
+	case "dontUseFlagsForMetaCharacters":
+		return o.dontUseFlagsForMetaCharacters(input)
+	case "removeOutermostNonCapturingGroup":
+		return o.removeOutermostNonCapturingGroup(input)
+	}
+	panic("verif: unknown pass " + name)
+}
+
+// VerifFindGroupBodyEnd exposes findGroupBodyEnd.
+func (o *Operator) VerifFindGroupBodyEnd(input string, groupBodyStart int) (int, bool) {
+	return o.findGroupBodyEnd(input, groupBodyStart)
+}
+
+// VerifStackDepth returns the number of processors left on the package-level stack.
+func VerifStackDepth() int {
+	return len(processorStack.processors)
+}
